@@ -1145,6 +1145,15 @@ impl Gen {
                         let t = self.template(kinds[ch]);
                         let m = self.mutate(t);
                         self.step(format!("junk 0 {ch} {}", if m.is_empty() { "-".to_string() } else { hex(&m) }));
+                        if self.rng.chance(1, 3) {
+                            // a well-formed event of the other client queued behind it in the same tick
+                            let id = self.v();
+                            self.step(format!("cev 1 ord {id}"));
+                            self.step("cframe 1".into());
+                            for ch in 0..self.sys.n_client_channels {
+                                while !self.sys.clients[1].c2s[ch].is_empty() { self.step(format!("deliver 1 c2s {ch} 0")); }
+                            }
+                        }
                     }
                     55..=74 => {
                         self.drain(out);
